@@ -27,6 +27,7 @@ CONSTANTS
   ATmin = 2
   ATmax = 3
   MaxRetransmit = %(mr)d
+  Tol = 0
   NRemotes = 2
   NReqs = %(nreqs)d
   MidSpace = %(midspace)d
@@ -44,6 +45,7 @@ CONSTANTS
   ATmin = 2
   ATmax = 3
   MaxRetransmit = %(mr)d
+  Tol = 0
   NRemotes = 2
   NReqs = %(nreqs)d
   MidSpace = %(midspace)d
@@ -57,6 +59,7 @@ CONSTANTS
   ATmin = 2
   ATmax = 3
   MaxRetransmit = 1
+  Tol = 0
   NRemotes = 1
   NReqs = 2
   MidSpace = 3
@@ -373,9 +376,22 @@ def check(rep, args, prefix, emphasis):
                 rep.add_drift("model behaviour not reproduced by implementation: " + d)
         # code -> spec: TLC evaluates the clauses on every real trace, grouped by constants
         groups = {}
+        offgrid = set()
         for idx, (s, res) in enumerate(zip(all_scheds, results)):
-            c = tuning_consts(s["tuning"])
+            c = dict(tuning_consts(s["tuning"]), Tol=0)
+            if any(e["t"] < 0 for e in res["events"]):
+                # a timer was armed with a value that is no multiple of 2^-10 s (the implementation draws its
+                # random numbers in a way the harness does not steer): judge in units of 2^-20 s, with a
+                # tolerance for the float rounding of loop.time() + delay
+                offgrid.add(idx)
+                for e in res["events"]:
+                    e["t"] = e["tf"]
+                c = dict(ATmin=c["ATmin"] * 1024, ATmax=c["ATmax"] * 1024, MaxRetransmit=c["MaxRetransmit"], Tol=8)
             groups.setdefault(tuple(sorted(c.items())), []).append(idx)
+        if offgrid:
+            rep.add_drift("%d of %d recorded executions have instants off the 2^-10 s grid (initial timeouts not drawn through "
+                          "random.uniform/random.random as steered by the harness); judged at 2^-20 s with tolerance, strict validation skipped"
+                          % (len(offgrid), len(all_scheds)))
         validated = 0
         nontrivial = set()
         for ckey, idxs in groups.items():
@@ -404,6 +420,8 @@ def check(rep, args, prefix, emphasis):
         strict_total = strict_ok = 0
         for ckey, idxs in groups.items():
             consts = dict(ckey)
+            if consts["Tol"]:
+                continue
             straces = []
             for i in idxs:
                 init = dict(results[i]["events"][0], k="init", t=0, mid=all_scheds[i]["mid0"] & 0xFFFF, q=0, r=0, ty="", cls="", con=False, g=0)
